@@ -106,13 +106,17 @@ class Assembler:
         return self.sources[rel]
 
     # -- parsing the .vu --------------------------------------------------------------------
-    def assemble(self, canary=False):
+    def assemble(self, canary=False, drop_kf=()):
+        """drop_kf: finding ids whose carve-out lines (marked `// KF:<ID>`) are removed from the unit text"""
+        self.drop_kf = set(drop_kf)
         self.pieces = []
         self.extracted = []
         self.dropped = []
         self.rewrites = []
         self.canaries = 0
         lines = self._with_includes(open(self.unit_path).read().split('\n'))
+        if self.drop_kf:
+            lines = [l for l in lines if not any(re.search(r'//\s*KF:%s\b' % re.escape(k), l) for k in self.drop_kf)]
         i = 0
         verb_start = None
         verb = []
